@@ -33,6 +33,8 @@ def cases(draw):
     cfg = {"keep_less_specific": True, "all_instances_are_compliant_mode": True, "instances_report_mode": "mixed"}
     for name in ("allow_opt_cardinality", "disable_exact_cardinality", "discard_useless_constraints_with_positive_closure", "inverse_paths"):
         cfg[name] = draw(st.booleans())
+    if draw(st.integers(0, 3)) == 0:
+        cfg["detect_minimal_iri"] = True       # '[<stem>~] AND {...}': the stem is a node constraint every instance must satisfy
     if with_or:
         cfg["disable_or_statements"] = False        # disjunctions ('p @:A OR @:B') instead of one merged constraint
         cfg["allow_redundant_or"] = draw(st.booleans())
